@@ -19,7 +19,7 @@ SIM_UNIT = "group operations"
 BUDGET = {"quick": {"runs": 1600, "wall": 85}, "thorough": {"runs": 12000, "wall": 2400}}
 SHRINK_LISTS = ("ops",)
 PROBES = {"C03": ["history>=1000", "history>=10000", "act4:w=0", "float32", "batched", "scale-steered",
-                  "assoc", "act-compose", "identity", "inverse", "reinit-from-identity", "logscale>8", "identity_-through-view:[::2]", "identity_-through-view:[:, 0]", "operand:expanded", "operand:broadcast", "operand:non-contiguous", "operand:deepcopied"]}
+                  "assoc", "act-compose", "identity", "inverse", "reinit-from-identity", "logscale>8", "identity_-through-view:[::2]", "identity_-through-view:[:, 0]", "operand:expanded", "operand:broadcast", "operand:non-contiguous", "operand:deepcopied", "translation-rebased"]}
 TS = float(os.environ.get("PPSIM_TOLSCALE", "1"))
 UPDATES = ("mulr", "mull", "inv", "add_", "plus", "retr", "idl", "idr", "reinit", "ident_view")
 PROBE_OPS = ("act3", "act4", "assoc", "actcomp", "access", "invlaw")
@@ -173,10 +173,13 @@ def execute(plan, prop, out, tr):
     n_upd = 0
     grams = ["^", "^"]
 
-    def local(res, want, what, i, scale):
+    def local(res, want, what, i, scale, drift=False):
         """matrix(result) computed from the result's storage values vs the reference operation."""
         got = to_mat(fam, npd(res))
         err = np.abs(got - want).max()
+        if drift:
+            # Inv rotates the translation with the un-renormalised quaternion: the accumulated norm drift enters once
+            scale = scale * (1 + 0.1 * n_upd)
         if not err <= C_LOC * eps * max(scale, 1.0):
             raise Violation("C03.homomorphism", "op #%d %s: matrix of the result differs from the reference matrix "
                             "operation by %.3e (allowed %.3e; %s %s)" % (i, what, err, C_LOC * eps * max(scale, 1.0), fam,
@@ -189,6 +192,8 @@ def execute(plan, prop, out, tr):
         steer = has_s and np.abs(logs).max() > c.get("logs_bound", 3.0)
         if has_s and np.abs(logs).max() > 8:
             out.probe("logscale>8")
+        if op in UPDATES and has_t and np.abs(Xn[..., 0:3]).max() > (1e4 if dtype == torch.float32 else 1e9):
+            op = "reinit"; out.probe("translation-rebased")      # scales up to e^16 make translations grow geometrically
         if op in UPDATES:
             a = alg(i, "a")
             if has_s and c.get("sdrift") and not steer:
@@ -233,7 +238,7 @@ def execute(plan, prop, out, tr):
             elif op == "inv":
                 R = X.Inv()
                 want = np.linalg.inv(MX)
-                local(R, want, op, i, np.abs(want).max() * np.linalg.cond(MX.reshape(-1, 4, 4)).max())
+                local(R, want, op, i, np.abs(want).max() * np.linalg.cond(MX.reshape(-1, 4, 4)).max(), drift=True)
                 Mref = np.linalg.inv(Mref)
                 X = R
             elif op in ("add_", "plus", "retr"):
